@@ -375,7 +375,13 @@ pub fn check(case: &Case, run: &Run) -> Result<(bool, Vec<String>), Violation> {
                     Tag::Terminated { has_state, reason, .. } => {
                         let state_ok_graceful = if *a == 0 { *has_state == !is_tl } else { !*has_state };
                         match reason.as_deref() {
-                            Some("killed") => !*has_state && f.kill_at.map_or(false, |q| q < pos),
+                            // aborting the *start task* of a thread-local instant spawn after the spawner finished
+                            // the start kills the (otherwise un-owned) actor
+                            Some("killed") => {
+                                !*has_state
+                                    && (f.kill_at.map_or(false, |q| q < pos)
+                                        || (is_tl && sc.specs[child].variant().is_instant() && f.abort_at.map_or(false, |q| q < pos)))
+                            }
                             Some("actor_task_cancelled") => !*has_state && f.abort_at.map_or(false, |q| q < pos),
                             Some("Drained") => state_ok_graceful && f.drain_at.map_or(false, |q| q < pos),
                             Some("why") => state_ok_graceful && f.stop_reason_at.map_or(false, |q| q < pos),
